@@ -466,13 +466,18 @@ def rule_dtype(rep, res, entry=None, rule="R-DTYPE"):
         if not src:
             continue
         v = ev.d["value"].flat()
-        solved = any(r in res.heap and res.heap[r].kind == "cvxvar" for r in v.refs)
+        solved = bool(sol_ids(v))
         if solved:
             rep.violated(rule, "result buffer element type", where=ev.loc, construct=ev.text(), entry=entry,
                          config=res.config,
                          msg=f"solver output is stored into a buffer whose dtype is inherited from the caller's "
                              f"`{', '.join(sorted(src))}` (…_like without dtype=): integer-typed targets truncate the fitted "
                              f"values")
+
+
+def sol_ids(v):
+    """ids of the cvx Variables whose solved value flows into v"""
+    return {int(o[4:]) for o in v.flat().data if o.startswith("sol#")}
 
 
 def objective_nf(obj):
